@@ -216,12 +216,12 @@ class Flow:
         if d.kind == "assign" or d.kind == "walrus":
             t = self.term(d.value, d.node, depth + 1)
             for p in d.path:
-                t = ("idx", t, ("const", repr(p)))
+                t = mk_idx(t, ("const", repr(p)))
             return t
         if d.kind == "for":
             t = ("elem", self.term(d.value, self._iter_node(d), depth + 1))
             for p in d.path:
-                t = ("idx", t, ("const", repr(p)))
+                t = mk_idx(t, ("const", repr(p)))
             return t
         if d.kind == "with":
             t = ("op", "enter", (self.term(d.value, d.node, depth + 1),))
@@ -316,7 +316,7 @@ class Flow:
                         return g
             return ("attr", base, e.attr)
         if isinstance(e, ast.Subscript):
-            return ("idx", self.term(e.value, node, d1), self.term(e.slice, node, d1))
+            return mk_idx(self.term(e.value, node, d1), self.term(e.slice, node, d1))
         if isinstance(e, ast.Await):
             return ("await", self.term(e.value, node, d1))
         if isinstance(e, ast.NamedExpr):
@@ -372,6 +372,29 @@ class Flow:
         return ("unk", src_of(e, 60))
 
 
+def mk_idx(base, idx):
+    """``base[idx]`` with tuple/list displays and phis of them folded: (a, b)[0] -> a."""
+    if idx[0] == "const":
+        try:
+            i = int(idx[1])
+        except Exception:
+            i = None
+        if i is not None:
+            if base[0] == "display" and base[1] in ("tuple", "list") and -len(base[2]) <= i < len(base[2]) and not any(x[0] == "star" for x in base[2]):
+                return base[2][i]
+            if base[0] == "phi":
+                alts = []
+                for a in base[1]:
+                    if a == ("const", "None"):
+                        continue  # the initial ``_ret = None`` of an inlined helper
+                    r = mk_idx(a, idx)
+                    if r not in alts:
+                        alts.append(r)
+                if alts and all(not (r[0] == "idx" and r[2] == idx) for r in alts):
+                    return alts[0] if len(alts) == 1 else ("phi", tuple(sorted(alts, key=repr)))
+    return ("idx", base, idx)
+
+
 def global_term(model, mod, name):
     for f in mod.funcs:
         if f.parent is None and f.cls is None and f.name == name and f.live:
@@ -391,10 +414,55 @@ def global_term(model, mod, name):
             return ("global", parts[1], parts[2])
         return ("module", target)
     if name in mod.assigns:
+        # a module-level constant bound once to a literal (tuple/list/set of constants or of dotted names, a string,
+        # a number) is replaced by its value: moving a literal into a named constant is not a change for the rules
+        vals = mod.assigns[name]
+        if len(vals) == 1:
+            ct = module_expr_term(model, mod, vals[0])
+            if ct is not None:
+                return ct
         return ("global", mod.name, name)
     if hasattr(_builtins, name):
         return ("builtin", name)
     return ("unk", "free:" + name)
+
+
+def module_expr_term(model, mod, e, depth=0):
+    """Term of a module-level *literal* expression, or None if the expression is not a plain literal."""
+    if depth > 4:
+        return None
+    if isinstance(e, ast.Constant):
+        return ("const", repr(e.value))
+    if isinstance(e, (ast.Tuple, ast.List, ast.Set)):
+        elems = []
+        for x in e.elts:
+            t = module_expr_term(model, mod, x, depth + 1)
+            if t is None:
+                return None
+            elems.append(t)
+        # displays of literals compare by content: a fixed pseudo-site
+        return ("display", type(e).__name__.lower() if not isinstance(e, ast.Tuple) else "tuple", tuple(elems), ("<const>", 0, 0))
+    if isinstance(e, ast.Call) and isinstance(e.func, ast.Name) and e.func.id in ("frozenset", "tuple", "set", "list") and len(e.args) == 1 and not e.keywords:
+        inner = module_expr_term(model, mod, e.args[0], depth + 1)
+        if inner is not None and inner[0] == "display":
+            return ("display", "tuple", inner[2], ("<const>", 0, 0))
+        return None
+    if isinstance(e, ast.Attribute):
+        # dotted constant such as inspect.Parameter.KEYWORD_ONLY / ast.Add
+        parts = []
+        cur = e
+        while isinstance(cur, ast.Attribute):
+            parts.append(cur.attr)
+            cur = cur.value
+        if isinstance(cur, ast.Name) and cur.id in mod.imports and not mod.imports[cur.id].startswith(PKG):
+            t = ("module", mod.imports[cur.id])
+            for a in reversed(parts):
+                t = ("attr", t, a)
+            return t
+        return None
+    if isinstance(e, ast.Name) and e.id in mod.assigns and len(mod.assigns[e.id]) == 1:
+        return module_expr_term(model, mod, mod.assigns[e.id][0], depth + 1)
+    return None
 
 
 def normalise_args(model, callee, args, kwargs):
